@@ -268,7 +268,9 @@ partial def loop (h : IO.FS.Stream) (out : IO.FS.Stream) (d : DState) : IO Unit 
   let line ← h.getLine
   if line.isEmpty then return ()
   let (d', o) := handle d line
-  if !o.isEmpty then out.putStrLn o
+  if !o.isEmpty then
+    out.putStrLn o
+    out.flush
   loop h out d'
 
 end LP.Driver
